@@ -6,35 +6,38 @@ import QV.Shared.SeqGateWire
 namespace QV.C20
 open QV QV.SeqGateWire
 
-/-- the model's answer in the shape of one entry point's output -/
-def modelOut (p : Program String) (sel : String → Bool) : Option PlainOut :=
-  match expandProgram p sel with
-  | .ok q => some (.ok q.body (q.defs.map (·.name)) true)
-  | .err e => some (.err e)
+/-- the model's answer in the shape of one entry point's output, from the already computed expansion `e`
+and retained names `k` -/
+def modelOut (e : Outcome (List (Instr String))) (k : List String) : Option PlainOut :=
+  match e with
+  | .ok b => some (.ok b k true)
+  | .err x => some (.err x)
   | .outOfFuel => none
 
 /-- the model's prediction for "expanding the result again with the same filter changes nothing" -/
-def modelAgain (p : Program String) (sel : String → Bool) : Bool :=
-  match expandProgram p sel with
-  | .ok q =>
+def modelAgain (p : Program String) (sel : String → Bool) (e : Outcome (List (Instr String))) (k : List String) : Bool :=
+  match e with
+  | .ok b =>
+    let q : Program String := { defs := keptDefs p.defs sel, body := b }
     (match expandProgram q sel with
-      | .ok q' => decide (q'.body = q.body) && q'.defs.map (·.name) == q.defs.map (·.name)
+      | .ok q' => decide (q'.body = b) && q'.defs.map (·.name) == k
       | _ => false)
   | _ => true
 
 /-- The specification evaluated on ONE entry point's output `o` (theorems in Props.lean tie each conjunct to
-the declarative statement):
+the declarative statement; `e = expand p.defs sel p.body`, `k = (keptDefs p.defs sel).map name`, computed once):
 * returned `Ok`: the body is the one `expand` computes (`C20_expand_ok_iff_pure`) **and**, independently of
   the model, the verifier `verifyPure` accepts it as the stack-free expansion (`C20_verifyPure_iff`), the
   retained definitions are exactly those `keptDefs` selects (`C20_kept_iff`), in order, and untouched;
-* returned `Err e`: `expand` reports `e` (`C20_expand_err_iff`). -/
-def specCheck (p : Program String) (sel : String → Bool) (o : PlainOut) : Bool :=
+* returned `Err x`: `expand` reports `x` (`C20_expand_err_iff`). -/
+def specCheck (p : Program String) (sel : String → Bool) (e : Outcome (List (Instr String))) (k : List String)
+    (o : PlainOut) : Bool :=
   match o with
   | .ok body kept intact =>
-    decide (expand p.defs sel p.body = .ok body) &&
+    decide (e = .ok body) &&
       decide (verifyPure p.defs sel (p.defs.map (·.name)) p.body body = some []) &&
-      kept == (keptDefs p.defs sel).map (·.name) && intact
-  | .err e => decide (expand p.defs sel p.body = .err e)
+      kept == k && intact
+  | .err x => decide (e = .err x)
 
 /-- deepest nesting of expansions reached (for the distribution tags only) -/
 partial def nestDepth (defs : List (Def String)) (sel : String → Bool) (stack : List String)
@@ -61,10 +64,14 @@ def handle (inp out : Sexp) : CaseResult :=
         detail := s!"impl={out}" }
     | some obs =>
       let o := obs.plain
-      let m := modelOut p sel
+      let e := expand p.defs sel p.body
+      let kept := (keptDefs p.defs sel).map (·.name)
+      let m := modelOut e kept
+      let again := modelAgain p sel e kept
+      let specPlain := specCheck p sel e kept obs.plain
+      let specMapped := if obs.mapped == obs.plain then specPlain else specCheck p sel e kept obs.mapped
       let seqs := seqNames p.defs
       let selectedSeqs := seqs.filter sel
-      let kept := (keptDefs p.defs sel).map (·.name)
       let keptSelected := selectedSeqs.filter fun n => kept.contains n
       let invokedNames := p.body.filterMap fun i => match i with | .gate g => some g.name | _ => none
       let tags :=
@@ -83,12 +90,11 @@ def handle (inp out : Sexp) : CaseResult :=
         (if p.body.any (fun i => match i with | .other _ => true | _ => false) then ["has-other-instr"] else []) ++
         (if inputHasExtras inp then ["extras"] else [])
       { -- BOTH entry points must return what the model computes; the repeated-call flag must be the model's
-        agree := m == some obs.plain && m == some obs.mapped && obs.again == modelAgain p sel,
-        specOk := specCheck p sel obs.plain && specCheck p sel obs.mapped &&
-          obs.fullsame && obs.again && obs.errfmt,
+        agree := m == some obs.plain && m == some obs.mapped && obs.again == again,
+        specOk := specPlain && specMapped && obs.fullsame && obs.again && obs.errfmt,
         nontrivial := p.body.any (isSelectedInvocation p.defs sel),
         tags := tags,
-        detail := s!"model={repr m} again={modelAgain p sel} impl={out}" }
+        detail := s!"model={repr m} again={again} impl={out}" }
 
 end QV.C20
 
